@@ -318,5 +318,45 @@ int main(int argc, char **argv) {
             vf::distinct("outcomes", "ro-release|" + std::to_string(variant) + "|" + (rc == 0 && exc.empty() ? "released" : "held"));
         }
     }
+    // ================= (d) the same path open through TWO File objects of the process =================
+    // Both are closed (in either order); entity handles obtained through either of them may outlive the closes.  Afterwards the
+    // file must be released (another process opens it ReadWrite, the same process reopens it with Overwrite), it must hold what was
+    // written, and handles obtained through a closed File must throw.
+    for (int variant = 0; variant < 8; variant++) {
+        long cid = caseno++;
+        if (!vf::take_case(cid)) continue;
+        const bool second_first = variant & 1, keep1 = variant & 2, keep2 = variant & 4;
+        std::string vdesc = std::string("two File objects on one path, closed ") + (second_first ? "second first" : "first first") + ", handles kept past close(): " + (keep1 ? "of the first " : "") + (keep2 ? "of the second" : "") + (!keep1 && !keep2 ? "none" : "");
+        vf::case_desc(vdesc);
+        std::string work = vf::scratch_file("twin.h5");
+        ops::copy_file(r1, work);
+        vf::set_clock(E.clock0 + 300);
+        Held h1, h2;
+        std::string want, what;
+        std::string exc = vf::guarded([&] {
+            File f1 = File::open(work, FileMode::ReadWrite);
+            File f2 = File::open(work, FileMode::ReadWrite);
+            if (keep1) for (int k = 0; k < NK; k++) grab(f1, k, h1);
+            if (keep2) for (int k = 0; k < NK; k++) grab(f2, k, h2);
+            f1.getBlock("b1").definition("written through the first");
+            f2.getBlock("b1").getDataArray("a1").label("written through the second");
+            want = obs::render(obs::observe(f2));
+            if (second_first) { f2.close(); f1.close(); } else { f1.close(); f2.close(); }
+        }, &what);
+        vf::count("twin_sessions");
+        if (!exc.empty()) { vf::distinct("outcomes", "twin|" + exc); vf::count("twin_sessions_refused"); continue; }   // whether a second open is possible is not C11's matter
+        std::string got;
+        int rc = run_other(work, "RW", &got);
+        vf::count("release_checks");
+        if (rc != 0) vf::violation("C11|close of two File objects on one path|another process cannot open the file ReadWrite", vdesc + ": " + got.substr(0, 200));
+        else if (got != want) vf::violation("C11|close of two File objects on one path|content seen by another process differs", vdesc, obs::diff(want, got));
+        Probe p1 = probe_stale(h1), p2 = probe_stale(h2);
+        vf::count("stale_calls", p1.calls + p2.calls);
+        if (!p1.returned.empty() || !p2.returned.empty())
+            vf::violation("C11|stale handle after close|two File objects on one path|call returned normally|" + (p1.returned + p2.returned).substr(0, (p1.returned + p2.returned).find(' ')), vdesc + ": " + p1.returned + p2.returned);
+        exc = vf::guarded([&] { File g = File::open(work, FileMode::Overwrite); size_t n = g.blockCount(); g.close(); if (n != 0) throw std::runtime_error("not empty"); });
+        if (!exc.empty()) vf::violation("C11|close of two File objects on one path|same process cannot reopen with Overwrite", vdesc + ": " + exc);
+        vf::distinct("outcomes", "twin|" + std::to_string(variant) + "|" + (rc == 0 && exc.empty() ? "released" : "held"));
+    }
     return vf::finish();
 }
